@@ -184,10 +184,20 @@ func run(r *enumx.Run, replay *enumx.ReplayCase) {
 							n    int
 						}{{"ciphertext", len(ct)}, {"tag", len(tag)}, {"nonce", a.Ref.NonceLen}, {"aad", len(aads[ai])}}
 						if a.Ref.Class == cryptoref.KW {
-							comps = comps[:1]
+							comps = comps[:2]
 							comps[0].name = "wrapped-key"
+							comps[1].name, comps[1].n = "integrity-value", -8
 						}
 						for _, cp := range comps {
+							if cp.n < 0 { // fixed-size value: xor mutations only
+								eachXor(cp.name, -cp.n, allXor, func(m Mut) {
+									m2 := m
+									c := Case{Sec: "sym-mut", Alg: a.Name, PT: pl, AAD: ai, Mut: &m2}
+									u.count(true)
+									u.emit(c, u.e.evalSymMut(c))
+								})
+								continue
+							}
 							eachMutation(cp.name, cp.n, allXor, func(m Mut) {
 								m2 := m
 								c := Case{Sec: "sym-mut", Alg: a.Name, PT: pl, AAD: ai, Mut: &m2}
@@ -212,6 +222,12 @@ func run(r *enumx.Run, replay *enumx.ReplayCase) {
 			}
 			for _, pl := range []int{16, 24, 40} {
 				eachMutation("wrapped-key", pl+8, allXor, func(m Mut) {
+					m2 := m
+					c := Case{Sec: "kw", KSize: ks, PT: pl, Mut: &m2}
+					u.count(true)
+					u.emit(c, u.e.evalKW(c))
+				})
+				eachXor("integrity-value", 8, allXor, func(m Mut) {
 					m2 := m
 					c := Case{Sec: "kw", KSize: ks, PT: pl, Mut: &m2}
 					u.count(true)
